@@ -18,18 +18,18 @@ type MChan struct {
 
 // MAlloc is a modelled allocation.
 type MAlloc struct {
-	Client  string
-	User    string
-	Fam     int // 4 or 6
-	TCP     bool
-	Relay   *net.UDPAddr // learnt from the success response
-	Exp     time.Time
-	Granted time.Duration
+	Client   string
+	User     string
+	Fam      int // 4 or 6
+	TCP      bool
+	Relay    *net.UDPAddr // learnt from the success response
+	Exp      time.Time
+	Granted  time.Duration
 	Granted0 time.Duration // lifetime granted by the Allocate itself (what a retransmission repeats)
-	Tx      [12]byte
-	Note    string // free use by harnesses (e.g. the attributes of the Allocate success response)
-	Perms   map[string]time.Time // peer IP -> expiry
-	Chans   map[uint16]*MChan
+	Tx       [12]byte
+	Note     string               // free use by harnesses (e.g. the attributes of the Allocate success response)
+	Perms    map[string]time.Time // peer IP -> expiry
+	Chans    map[uint16]*MChan
 }
 
 // DeadRelay remembers a relay address whose allocation is gone.
@@ -128,8 +128,19 @@ func (m *Model) Granted(requested int64) time.Duration {
 }
 
 // Allowed reports whether the operator policy admits the peer IP.
-func (m *Model) Allowed(ip net.IP) bool {
-	switch m.Cfg.Policy {
+func (m *Model) Allowed(ip net.IP) bool { return m.allowedBy(m.Cfg.Policy, ip) }
+
+// AllowedFor: the policy of the listener the client arrived through (a Dual world may give its stream listener another handler).
+func (m *Model) AllowedFor(client string, ip net.IP) bool {
+	if m.Cfg.Dual && m.Cfg.StreamPolicy != "" && strings.HasSuffix(client, "t") {
+		return m.allowedBy(m.Cfg.StreamPolicy, ip)
+	}
+
+	return m.allowedBy(m.Cfg.Policy, ip)
+}
+
+func (m *Model) allowedBy(policy string, ip net.IP) bool {
+	switch policy {
 	case "denyAll":
 		return false
 	case "denyB":
